@@ -326,7 +326,7 @@ CHECK_DEADLOCK FALSE
 
 
 def mc_cfg(ndirs, uris, maxver, maxtick, size, fsc, allow_put, depth, put_served=True, moddir=False, own_file=True):
-    return ("CONSTANTS NDirs = %d  Uris = {%s}  MaxVer = %d  MaxTick = %d  Size = %d  FsChecks = %s  TPS = %d  AllowPut = %s  Depth = %d  ModDir = %s\n"
+    return ("CONSTANTS NDirs = %d  Uris = {%s}  MaxVer = %d  MaxTick = %d  Size = %d  FsChecks = %s  TPS = %d  AllowPut = %s  Depth = %d  ModDir = %s  WB = \"hit\"\n"
             % (ndirs, ", ".join('"%s"' % u for u in uris), maxver, maxtick, size, "TRUE" if fsc else "FALSE", TPS,
                "TRUE" if allow_put else "FALSE", depth, "TRUE" if moddir else "FALSE")
             + MC_PROPS + ("INVARIANT PutServed\nINVARIANT PutFileServed\n" if put_served else "") + ("INVARIANT ServedFromOwnFile\n" if own_file else ""))
@@ -391,6 +391,46 @@ def check(run):
     res = run.tlc("MC_Lookup", mc_cfg(1, ["a", "b"], 3, 3, 1, True, False, 8 if not thorough else 10, moddir=True), name="mc-moddir-1dir", coverage=True)
     if res.violated:
         run.spec_violation(res)
+
+    # ------------------------------------------------------------------ 1b. witnesses: TLC finds a behaviour reaching every branch; replay it
+    wit = []   # (name, invariant, WB, ndirs, uris, size, fsc, moddir, allow_put)
+    for b in ("hit", "vanished", "reload", "reload-broken", "miss", "load", "load-broken"):
+        wit.append(("w-" + b, "NotWBranch", b, 2, ["a", "b"], 1, True, False, False))
+    wit.append(("w-hit-nocheck", "NotWBranch", "hit-nocheck", 1, ["a", "b"], 0, False, False, False))
+    for b in ("load-reuse",):
+        wit.append(("w-" + b, "NotWBranch", b, 1, ["a", "b"], 1, True, True, False))
+    for b in ("hit", "reload"):
+        wit.append(("w-alias-" + b, "NotWAliasBranch", b, 1, ["a", "b"], 0, True, False, True))
+    wit.append(("w-evicted", "NotWEvicted", "hit", 1, ["a", "b", "c"], 1, True, False, False))
+
+    def one_witness(w):
+        name, inv, wb, nd, uris, size, fsc, moddir, ap = w
+        cfg = ("CONSTANTS NDirs = %d  Uris = {%s}  MaxVer = 4  MaxTick = 6  Size = %d  FsChecks = %s  TPS = %d  AllowPut = %s  Depth = 9  ModDir = %s  WB = \"%s\"\n"
+               % (nd, ", ".join('"%s"' % u for u in uris), size, "TRUE" if fsc else "FALSE", TPS, "TRUE" if ap else "FALSE",
+                  "TRUE" if moddir else "FALSE", wb)
+               + "SPECIFICATION Spec\nINVARIANT %s\nCONSTRAINT Bound\nCHECK_DEADLOCK FALSE\n" % inv)
+        res = run.tlc("MC_Lookup", cfg, name=name, workers=2, timeout=600, count=False)
+        if res.violated != [inv]:
+            return name, None, "witness %s not reached (violated=%s)" % (name, res.violated)
+        ce = res.counterexample()
+        mm = replay_behaviour([("ce", st) for _, st in ce], nd, size, fsc, moddir, base=run.scratch)
+        return name, ce, mm
+    import concurrent.futures as cf
+    with cf.ThreadPoolExecutor(max_workers=6) as ex:
+        outs = list(ex.map(one_witness, wit))
+    nw = 0
+    for name, ce, mm in outs:
+        if ce is None:
+            raise MachineryError(mm)
+        nw += 1
+        run.transitions += len(ce)
+        if mm:
+            run.violation("witness-replay:%s:%s" % (name, mm.get("clause")),
+                          "real TemplateLookup disagrees with the TLC behaviour reaching witness %s at step %s: expected %s, observed %s"
+                          % (name, mm.get("step"), mm.get("expected"), mm.get("observed")),
+                          {"witness": name, "history": events_of_counterexample(ce), "mismatch": mm})
+    run.traces += nw
+    run.extra["witness_behaviours_replayed"] = nw
 
     # ------------------------------------------------------------------ 2. R: simulate -> replay
     sims = [  # name, ndirs, uris, size, fsc, moddir, allow_put, num, depth
